@@ -1,6 +1,6 @@
 #!/bin/bash
-# For each seeded change (or those given as arguments): apply it in a scratch worktree and run the upstream
-# test files that exercise the touched code plus the core files; write seeded/<id>/tests.txt.
+# For each seeded change given as argument (default: all without tests.txt): apply it in a scratch worktree and run the
+# upstream test files that exercise the touched code plus the core files; write seeded/<id>/tests.txt.
 cd "$(dirname "$0")/.."
 WT=/tmp/confirm_wt_$$
 git -C /repo worktree add -q $WT HEAD || exit 1
@@ -10,12 +10,13 @@ for id in $ids; do
   d=seeded/$id
   [ -f $d/patch.diff ] || continue
   [ -f $d/tests.txt ] && continue
-  (cd $WT && git checkout -q -- . && git apply $OLDPWD/$d/patch.diff) || { echo "patch failed" > $d/tests.txt; continue; }
+  (cd $WT && git checkout -q -- . && git apply $OLDPWD/$d/patch.diff) || { echo "patch failed to apply on HEAD" > $d/tests.txt; continue; }
   (cd $WT && PYTHONPATH=$WT timeout 3000 /venv/bin/python -m pytest -q -p no:cacheprovider --timeout=900 \
       cubed/tests/test_core.py cubed/tests/test_array_api.py cubed/tests/test_optimization.py cubed/tests/runtime \
       cubed/tests/test_executor_features.py cubed/tests/test_rechunk.py cubed/tests/test_store.py cubed/tests/primitive cubed/tests/storage \
       cubed/tests/test_linalg.py cubed/tests/test_indexing.py cubed/tests/test_utils.py cubed/tests/test_random.py cubed/tests/test_gufunc.py \
-      -k "not spark" 2>&1 | tail -4) > $d/tests.txt
-  (cd $WT && git checkout -q -- .)
+      -k "not spark" 2>&1 | tail -4) > $d/tests.txt.part
+  mv $d/tests.txt.part $d/tests.txt
+  (cd $WT && git checkout -q -- . && git clean -fdq)
   echo "$id: $(tail -1 $d/tests.txt)"
 done
